@@ -901,6 +901,28 @@ func (c *Ctx) timeoutListIdentity() {
 					}
 				}
 			}
+			if !okID {
+				// the id travels in a context struct that the caller filled (b.globalID next to b.globalKey)
+				if u, isU := core.Strip(id).(*ssa.UnOp); isU {
+					if fa, isFA := u.X.(*ssa.FieldAddr); isFA {
+						if vals, isCtx := core.CtxFieldValues(fa); isCtx && len(vals) > 0 {
+							okID = true
+							for _, cv := range vals {
+								var g *ssa.Function
+								switch x := cv.(type) {
+								case *ssa.Parameter:
+									g = x.Parent()
+								case ssa.Instruction:
+									g = x.Parent()
+								}
+								if g == nil || !isGlobalKeyArg(g, cv) {
+									okID = false
+								}
+							}
+						}
+					}
+				}
+			}
 			_, fld, _, okH := core.FieldOf(h)
 			key := shortFn(fn) + ": " + shortCallee(call)
 			r.Check(okID && okH && fld == "Height", "R06.8", key+fmt.Sprintf(" #%d", n), c.P.Pos(call.Pos()), "(txInfo.Height, id of the group record)",
@@ -1290,6 +1312,85 @@ func (c *Ctx) zeroTimeoutDeadline(recordedMode bool) {
 			}
 		}
 		r.Check(bad == "", "R06.13", key, c.P.Pos(fn.Pos()), "timeout tested against 0; on that edge the recorded Height is MaxUint64", bad+": a request with T = 0 gets a deadline and is rolled back although it must never time out")
+	}
+	// the deadline may be computed by a helper that returns it (record.Height = t.deadlineHeight(timeout)): the helper's
+	// result for timeout == 0 must be MaxUint64
+	for _, h := range c.P.ModuleFuncs(false) {
+		if !strings.Contains(core.FnName(h), "contracts.TransactionManager).") || len(h.Blocks) == 0 || h.Signature.Results().Len() != 1 {
+			continue
+		}
+		var tparam *ssa.Parameter
+		sumRet := false
+		for _, ret := range core.Returns(h) {
+			for _, o := range core.RetOrigins(ret.Results[0]) {
+				bo, ok := core.Strip(o.V).(*ssa.BinOp)
+				if !ok || bo.Op != token.ADD {
+					continue
+				}
+				for _, side := range [][2]ssa.Value{{bo.X, bo.Y}, {bo.Y, bo.X}} {
+					isCur := core.Mentions(side[0], func(w ssa.Value) bool {
+						cc, ok := w.(*ssa.Call)
+						return ok && strings.HasSuffix(core.CalleeName(cc), "GetCurrentHeight")
+					})
+					if p, ok := core.Strip(side[1]).(*ssa.Parameter); ok && isCur {
+						tparam, sumRet = p, true
+					}
+				}
+			}
+		}
+		if !sumRet {
+			continue
+		}
+		// used as the recorded Height by a function of the transaction manager
+		used := false
+		for _, site := range core.StaticSitesOf(h) {
+			cv, ok := site.(*ssa.Call)
+			if !ok || cv.Referrers() == nil {
+				continue
+			}
+			for _, rf := range *cv.Referrers() {
+				if st, ok := rf.(*ssa.Store); ok {
+					if _, f, _, ok := core.FieldOf(st.Addr); ok && f == "Height" {
+						used = true
+					}
+				}
+			}
+		}
+		if !used {
+			continue
+		}
+		n++
+		key := shortFn(h) + ": returned deadline for timeout = 0"
+		zero := condEdges(h, func(f core.Fact, ifi *ssa.If) (bool, int) {
+			if f.Kind == core.FEqConst && f.Subject != nil && core.Strip(f.Subject) == ssa.Value(tparam) && f.Const == "0" {
+				return true, holdsEdge(f)
+			}
+			return false, 0
+		})
+		if zero.Len() == 0 {
+			r.Bad("R06.13", key, c.P.Pos(h.Pos()), "the deadline GetCurrentHeight() + "+tparam.Name()+" is returned without any test of the timeout against 0")
+			continue
+		}
+		bad := ""
+		for b, idxs := range zero {
+			for si := range idxs {
+				rs := core.Reach([]core.Point{{B: b.Succs[si], Idx: 0}}, nil, nil)
+				for _, ret := range core.Returns(h) {
+					if !rs.Has(ret) {
+						continue
+					}
+					for _, o := range core.RetOrigins(ret.Results[0]) {
+						if o.Via != nil && o.To != nil {
+							continue // value selected by an edge: decided by the return it reaches
+						}
+						if !isMax(o.V) {
+							bad = "on the edge on which " + tparam.Name() + " is 0 the helper can return " + c.P.Pos(ret.Pos()) + ", which is not MaxUint64"
+						}
+					}
+				}
+			}
+		}
+		r.Check(bad == "", "R06.13", key, c.P.Pos(h.Pos()), "timeout tested against 0; on that edge the returned deadline is MaxUint64", bad+": a request with T = 0 gets a deadline and is rolled back although it must never time out")
 	}
 	r.Floor("R06.13", "transaction-manager functions recording a deadline they (or the executor) list ids under", n, 1)
 }
